@@ -39,6 +39,111 @@ def check_fp_fn_mirror(ctx: Ctx):
     ctx.decide("R11.3", None, None, "mirror:rq", "rq is unchanged when prediction and reference are exchanged", vals["rq"].subst(swap).equals(vals["rq"]), {"rq": repr(vals["rq"])})
 
 
+def check_mirror_run(ctx: Ctx):
+    """R11.6: every matcher of the family is run (abstract interpreter, concrete rational scores) on a bounded
+    family of candidate sets - four candidates over up to three labels of one side and two of the other, every
+    ranking of their scores - and on the mirrored set (roles of prediction and reference exchanged).  Wherever the
+    matcher pairs one-to-one in both runs, the two label maps must be mirror images."""
+    import ast
+    from fractions import Fraction
+    from itertools import permutations
+
+    from ..absval import Obj, Sym, Unknown, enumerate_paths
+    from ..model import norm
+    from .common import candidate_layout, labelmap_api, make_metric_objs
+    from .resultrun import ResultInterp
+
+    prog = ctx.prog
+    gen = prog.func("_functionals:_calc_matching_metric_of_overlapping_labels")
+    pcls = prog.cls("utils.processing_pair:UnmatchedInstancePair")
+    api = labelmap_api(prog)
+    layout = candidate_layout(prog)
+    families = ([(1, 1), (1, 2), (1, 3), (2, 3)], [(1, 1), (1, 2), (2, 1), (2, 2)])  # (reference label, prediction label)
+    values = (Fraction(9, 10), Fraction(8, 10), Fraction(7, 10), Fraction(6, 10))
+    n_cls = 0
+    for cls, f in c03.matcher_classes(ctx):
+        init = cls.lookup("__init__")
+        names = [p.name for p in init.call_params] if init is not None else []
+        mp = next((x for x in names if "metric" in x.lower()), None)
+        construct = f"{f.qual}:mirror-run"
+        mv, me = make_metric_objs(prog, False)
+        matcher = Obj(cls, {})
+        if init is not None:
+            o0 = ResultInterp(prog, init, {mp: me} if mp else {}, self_obj=matcher, metrics=[me]).run()
+            if o0.kind == "raise" or o0.decisions:
+                ctx.ok("R11.6", f, f.node, construct, "matcher not constructible from its defaults: not run", {"outcome": o0.kind}, nontrivial=False)
+                continue
+
+        def run(pairs, scores, matcher=matcher, f=f, me=me):
+            """label map {pred: ref} of one run, 'skip' (the matcher decides on something the scenario does not fix,
+            or pairs many-to-one) or ('fail', text)"""
+            recs = sorted(zip(scores, pairs), key=lambda x: -x[0])
+            records = [_c03_record(layout, sc, r, p_) for sc, (r, p_) in recs]
+            rl = tuple(sorted({r for r, _ in pairs}))
+            pl = tuple(sorted({p_ for _, p_ in pairs}))
+
+            def make(prefix):
+                pair = Obj(pcls, {"_prediction_arr": Sym("PRED_ARR"), "_reference_arr": Sym("REF_ARR"), "_ref_labels": rl, "_pred_labels": pl, "n_dim": 3, "n_prediction_instance": len(pl), "n_reference_instance": len(rl)})
+                params = [p.name for p in f.call_params]
+                it = c03.matcher_run_interp()(prog, f, {**({params[0]: pair} if params else {}), f.self_name: matcher}, metrics=[me], prefix=prefix)
+                it.root.no_inline = {gen.qual}
+                it.root.gen = gen
+                it.root.records = records
+                it.root.beats = {}
+                it.root.cmps = {}
+                return it
+
+            outs = enumerate_paths(make, max_paths=4)
+            if len(outs) != 1 or outs[0].decisions:
+                return "skip"
+            out = outs[0]
+            if out.kind != "return" or not isinstance(out.value, Obj):
+                return ("fail", f"{out.kind} {out.exc or ''}".strip())
+            got = out.value.attrs.get(api["dict_attr"])
+            if not isinstance(got, dict):
+                return "skip"
+            return dict(got)
+
+        runs = 0
+        verdict, witness = True, None
+        try:
+            for pairs in families:
+                for perm in permutations(range(4)):
+                    scores = [values[k] for k in perm]
+                    a = run(pairs, scores)
+                    if a == "skip":
+                        verdict = None
+                        break
+                    b = run([(p_, r) for r, p_ in pairs], scores)
+                    runs += 2
+                    if b == "skip":
+                        verdict = None
+                        break
+                    if isinstance(a, tuple) or isinstance(b, tuple):
+                        continue  # a raising run is R03.4's / R14.7's matter
+                    if len(set(a.values())) != len(a) or len(set(b.values())) != len(b):
+                        continue  # many-to-one pairing: outside the property
+                    if {r: p_ for p_, r in a.items()} != b:
+                        verdict, witness = False, {"candidates (ref, pred): score": {str(pr): str(sc) for pr, sc in zip(pairs, scores)}, "label_map": {str(k): v for k, v in a.items()}, "label_map_of_exchanged_pair": {str(k): v for k, v in b.items()}}
+                        break
+                if verdict is not True:
+                    break
+        except Undecided as e:
+            verdict, witness = None, {"why": str(e)}
+        n_cls += 1
+        if verdict is None:
+            # a matcher that is not a pure function of the candidates' ranking (merged scores, ...) is not judged here
+            ctx.ok("R11.6", f, f.node, construct, "matcher decides on more than the candidates' scores: mirror run not applicable", witness, nontrivial=False)
+        else:
+            ctx.decide("R11.6", f, f.node, construct, f"on every ranking of four candidates (two families, {runs} runs) the label map of the exchanged pair is the mirror image of the label map, wherever both are one-to-one", verdict, witness)
+    if n_cls == 0:
+        raise AnchorMissing("no matcher class to run")
+
+
+def _c03_record(layout, score, ref, pred):
+    return c03._build_record(layout, score, ref, pred)
+
+
 def _run_rule(ctx, name, fn):
     """a sub-rule that cannot be evaluated is recorded as undecided; the remaining rules still run"""
     try:
@@ -56,6 +161,7 @@ def check(ctx: Ctx):
             fn(ctx)
         except (Undecided, AnchorMissing) as e:
             ctx.undecided(rule, None, None, f"{rule}:{fn.__name__}", f"{type(e).__name__}: {e}")
+    _run_rule(ctx, "R11.6", check_mirror_run)
     _run_rule(ctx, "check_no_pruning", c03.check_no_pruning)
     c03._guarded(ctx, "R03.7", c03.check_candidate_call)
     c03._guarded(ctx, "R03.1", c03.check_codec)
